@@ -89,6 +89,11 @@ type Ctx struct {
 	// per-index leaves, so that lookups of lookups compose and tables that are
 	// linear in the index collapse to arithmetic.
 	Chains map[int]*ChainInfo
+
+	varRange  map[string]*Range
+	rangeMemo map[int]*Range
+	divInfo   map[int]*divInfo
+	quotTimesK map[int]*divInfo
 }
 
 // ChainInfo: the term equals Leaves[k] whenever Idx == k, 0 <= k < len(Leaves).
@@ -535,7 +540,33 @@ func (c *Ctx) bin(op Op, a, b *Term) *Term {
 		}
 	}
 	if b.IsConst() && isCL(a) && !(b.Val.Sign() == 0 && (op == OpBvSDiv || op == OpBvSRem)) {
-		return c.mapCL(a, func(l *Term) *Term { return c.bin(op, l, b) })
+		r := c.mapCL(a, func(l *Term) *Term { return c.bin(op, l, b) })
+		if (op == OpBvUDiv || op == OpBvSDiv) && b.Val.Sign() > 0 {
+			if c.divInfo == nil {
+				c.divInfo = map[int]*divInfo{}
+			}
+			k := b.Val
+			if op == OpBvSDiv {
+				k = signed(b.Val, b.W)
+			}
+			if k.Sign() > 0 {
+				c.divInfo[r.ID] = &divInfo{a: a, k: k}
+			}
+		}
+		if op == OpBvMul {
+			// (x / k) * k with the quotient given as an ite tree: remember it,
+			// so that x - that is recognised as a remainder by the range analysis
+			if inf := c.divInfo[a.ID]; inf != nil && b.Val.Cmp(inf.k) == 0 {
+				if c.quotTimesK == nil {
+					c.quotTimesK = map[int]*divInfo{}
+				}
+				c.quotTimesK[r.ID] = inf
+			}
+		}
+		return r
+	}
+	if a.IsConst() && isCL(b) && op == OpBvMul {
+		return c.bin(op, b, a)
 	}
 	if a.IsConst() && isCL(b) {
 		zeroDiv := false
@@ -544,6 +575,11 @@ func (c *Ctx) bin(op Op, a, b *Term) *Term {
 		}
 		if !zeroDiv {
 			return c.mapCL(b, func(l *Term) *Term { return c.bin(op, a, l) })
+		}
+	}
+	if b.IsConst() && (op == OpBvUDiv || op == OpBvSDiv || op == OpBvURem || op == OpBvSRem) {
+		if r := c.lowerDiv(op, a, b); r != nil {
+			return r
 		}
 	}
 	switch op {
